@@ -145,6 +145,7 @@ def u_cancel(ip: Interp, th: PoolTheory):
             ip.require(s, f"raises:{c}:matches-state-of-first-offender",
                        z3.And(0 <= j0, j0 < n, z3.Not(p.R.has(bad)), cond, z3.ForAll([j], z3.Implies(z3.And(0 <= j, j < j0), p.R.has(idj)))), ("C06",))
         else:
+            ip.cover(s, "cancel:normal-exit")
             ip.require(s, "post:no-error-only-if-all-running", all_running, ("C06",))
             ip.require(s, "post:exactly-the-named-tasks-requested",
                        requested(st0, s, lambda t: z3.Exists([j], z3.And(0 <= j, j < n, p.Rv(idj) == t))), ("C06",))
@@ -201,7 +202,8 @@ def wrapper_unit(first_outcome: str):
         for s, v in run_body(ip, th, st, "pool.BaseTaskPool._task_wrapper", args):
             tr = s.trace
             tag = "/".join(s.tags)
-            # thread end
+            # thread end (vacuity guard: this point must be reachable on at least one path)
+            ip.cover(s, "wrapper:thread-end:" + ("raises" if isinstance(v, Exit) else "returns"))
             th.set_ghost(s, "loc", me, z3.IntVal(L_DONE))
             th.set_ghost(s, "fcan", me, z3.BoolVal(isinstance(v, Exit) and v.val.cls == "CancelledError"))
             th.check_point(s, "thread-end")
@@ -367,6 +369,7 @@ def u_start_task(ip: Interp, th: PoolTheory):
                 no_exit(ip, s, f"noraise:{c}", ("C09", "C12"))
             continue
         ip.require(s, "accepted:only-if-no-rejection-cause", accepted, ("C09",))
+        ip.cover(s, "_start_task:return" + (":after-waiting" if suspended else ":at-once"))
         th.check_point(s, "return")
         seg = s.aux["seg0"]
         if not isinstance(v, IntV):
@@ -520,6 +523,8 @@ def spawner_unit(qual: str, kind: int, cls: str, mk_args):
         a2 = dict(args)
         exits = run_body(ip, th, st, qual, a2, cls=cls)
         for s, v in exits:
+            if not isinstance(v, Exit):
+                ip.cover(s, "spawner:thread-end")
             th.set_ghost(s, "loc", me, z3.IntVal(L_DONE))
             th.check_point(s, "thread-end")
             if isinstance(v, Exit):
